@@ -22,8 +22,8 @@ def sh(cmd, **kw):
 
 
 def validate(d):
-    patch = os.path.join(d, "patch.diff")
-    demo = os.path.join(d, "demo.py")
+    patch = os.path.abspath(os.path.join(d, "patch.diff"))
+    demo = os.path.abspath(os.path.join(d, "demo.py"))
     wt = "/tmp/seedtest-wt-%d" % os.getpid()
     sh(["git", "-C", REPO, "worktree", "remove", "--force", wt])
     r = sh(["git", "-C", REPO, "worktree", "add", "--detach", wt, "HEAD"])
@@ -51,7 +51,7 @@ def validate(d):
 
 
 def detect(d, props, tier="quick"):
-    patch = os.path.join(d, "patch.diff")
+    patch = os.path.abspath(os.path.join(d, "patch.diff"))
     st = sh(["git", "-C", REPO, "status", "--porcelain", "--untracked-files=no"]).stdout.strip()
     assert st == "", "/repo has local modifications: " + st
     r = sh(["git", "-C", REPO, "apply", patch])
@@ -66,6 +66,16 @@ def detect(d, props, tier="quick"):
     finally:
         sh(["git", "-C", REPO, "checkout", "--", "."])
     print(json.dumps(out, indent=1))
+    mp = os.path.join(d, "meta.json")
+    if os.path.exists(mp):
+        meta = json.load(open(mp))
+        det = meta.get("detected_by") or {}
+        for p, r in out.items():
+            det[p] = {"detected": r["exit"] == 1 and r["n_violations"] > 0, "tier": tier,
+                      "first_violation_line": (r["violations"] or [None])[0], "n_violation_lines": r["n_violations"]}
+        meta["detected_by"] = det
+        meta["what_was_run"] = "git -C /repo apply patch.diff; ./check <id> --tier %s; git -C /repo checkout -- ." % tier
+        json.dump(meta, open(mp, "w"), indent=1)
     return out
 
 
